@@ -34,6 +34,10 @@ CLAIMED = {
  'C14': dict(engine = 'symx', technique = 'symbolic execution of real eq/in_ with z3 over nested containers of tagged scalars (extended-real floats, NaN identity) plus a concrete numpy/pandas pool selected symbolically; counterexample replay',
              text = 'For all pairs (depth <= 2) and triples (depth <= 1) of values from the universe the solver decides: a boolean is returned and nothing raises, symmetry, reflexivity on structural copies with fresh NaN objects, transitivity, False whenever the container skeletons differ at any depth, agreement with == on NaN-free plain values.',
              note = 'Trusted: z3/cvc5, CPython, proxies, numpy/pandas themselves. numpy arrays, numpy scalars and pandas objects are drawn from a concrete pool of 20 by a symbolic index (their cells are not symbolic); containers have length <= 2 (quick 1).'),
+
+ 'C15': dict(engine = 'symx', technique = 'symbolic execution of real tree_items/items_to_tree/tree_update/tree_getitem/table_to_tree/tree_to_table with z3: tree shapes chosen by symbolic selectors, leaf contents symbolic; counterexample replay',
+             text = 'For every tree of depth <= 2 (thorough 3) and width <= 2 and every pair (t, u) of such trees (overlaps, leaf-vs-branch conflicts, ignore lists) the solver decides flatten/rebuild inversion, key/value projections, tree_getitem on every path, tree_update == recursive-merge oracle, identities, Dict + dict, and that neither t nor u changes at any depth (same leaf objects); table_to_tree/tree_to_table inversion for 6 patterns with 1..4 wildcards.',
+             note = 'Trusted: z3, CPython, proxies. Shapes are enumerated through solver-chosen selectors (a fork per shape), leaves are None / symbolic ints / 2-element lists; keys from {a,b,c}; tables of <= 2 rows.'),
 }
 NA = {}
 TODO = 'check not built yet in this session (work in progress); will be decided by symbolic execution of the real code as described in DESIGN.md'
